@@ -26,6 +26,10 @@ def run(prop, tier, seed, replay=None):
         raise Inconclusive("TLC: " + m.error)
     if m.violation:
         raise Inconclusive("model violates %s" % m.violation)
+    # vacuity guard / deviation of the code (finding F28): with the payload store keyed by hash only, the alias peer class gets the payload
+    dev = vlib.tlc("SyncPriv", "SyncPriv.dev.cfg", workers=1, timeout=300)
+    if dev.error or dev.violation != "Confined2":
+        raise Inconclusive("SyncPriv.dev.cfg (PayloadBoundToTx = FALSE) is expected to violate Confined2, got %s %s" % (dev.violation, dev.error))
     cases = [dict(id="case%03d" % i, steps=h) for i, h in enumerate(sorted(m.printed, key=lambda h: json.dumps(h, sort_keys=True)))]
     res = vlib.run_driver_parallel(binary, dict(scripts=cases), test="TestPriv", timeout=600)
     by_id = {c["id"]: c for c in cases}
